@@ -327,12 +327,20 @@ class RFCOMM_Frame:
             length >>= 1
             information = data[3:-1]
         else:
-            length = (data[3] << 7) & (length >> 1)
+            length = (data[3] << 7) | (length >> 1)
             information = data[4:-1]
         fcs = data[-1]
 
-        # Construct the frame and check the CRC
-        frame = RFCOMM_Frame(frame_type, c_r, dlci, p_f, information)
+        # Construct the frame and check the CRC. As in `uih()`, a UIH frame with the
+        # P/F bit set carries a credits octet that the length indicator does not count.
+        frame = RFCOMM_Frame(
+            frame_type,
+            c_r,
+            dlci,
+            p_f,
+            information,
+            with_credits=(frame_type == FrameType.UIH and p_f == 1),
+        )
         if frame.fcs != fcs:
             logger.warning(f'FCS mismatch: got {fcs:02X}, expected {frame.fcs:02X}')
             raise InvalidPacketError('fcs mismatch')
